@@ -351,6 +351,14 @@ RuntimeAlgorithmSetProfile(struct RuntimeAlgorithm  *RuntimeAlgorithm,
 		    retVal = TPM_RC_KEY_SIZE;
 		    goto exit;
 		}
+		if (s_AlgorithmProperties[algId].u.minKeySize->stateFormatLevel > maxStateFormatLevel) {
+		    TPMLIB_LogTPM2Error("Requested %.*s requires StateFormatLevel %u but maximum allowed is %u.\n",
+					(int)toklen, token,
+					s_AlgorithmProperties[algId].u.minKeySize->stateFormatLevel,
+					maxStateFormatLevel);
+		    retVal = TPM_RC_VALUE;
+		    goto exit;
+		}
 		RuntimeAlgorithm->algosMinimumKeySizes[algId] = (UINT16)minKeySize;
 		*stateFormatLevel = MAX(*stateFormatLevel,
 					s_AlgorithmProperties[algId].u.minKeySize->stateFormatLevel);
